@@ -42,6 +42,9 @@ type Action struct {
 	Settings    [][2]string
 	TTL         []TTLItem
 	TTLText     string
+	Index       string // add_index | drop_index | materialize_index: the index name
+	IndexDef    string // add_index: canonical text of the definition
+	IfExists    bool
 }
 
 // Val is one value of an INSERT … VALUES tuple.
@@ -576,6 +579,19 @@ func (p *parser) alter(s *Stmt) {
 			} else if p.kw("FIRST") {
 				p.fail("ADD COLUMN … FIRST not modelled")
 			}
+		case p.kw("ADD", "INDEX"):
+			a.Kind = "add_index"
+			a.IfNotExists = p.kw("IF", "NOT", "EXISTS")
+			a.Index = p.ident()
+			a.IndexDef = canonToks(p.until(func(t tok) bool { return t.p(",") }))
+		case p.kw("DROP", "INDEX"):
+			a.Kind = "drop_index"
+			a.IfExists = p.kw("IF", "EXISTS")
+			a.Index = p.ident()
+		case p.kw("MATERIALIZE", "INDEX"):
+			a.Kind = "materialize_index"
+			a.IfExists = p.kw("IF", "EXISTS")
+			a.Index = p.ident()
 		case p.kw("MODIFY", "ORDER", "BY"):
 			a.Kind = "modify_order_by"
 			a.OrderBy = keyList(p.until(func(t tok) bool { return t.p(",") }))
